@@ -266,3 +266,17 @@ Theorem C12_source_read_then_destroy : forall rf rp fo po v k sx h m, Forall byt
            inb fin2 = inb fin /\ Imp.lookup cells_var (vars fin2) = Some (VHeap (h ++ nones nb))).
 Proof. exact obj_read_arr_then_destroy. Qed.
 Print Assumptions C12_source_read_then_destroy.
+
+(* the same one level up: whatever sbdf_va_read builds (plain and run-length arrays; the handle, one or two objects, their
+   data) is released by one sbdf_va_destroy - every block the read allocated, once, and nothing else *)
+Theorem C12_source_va_read_then_destroy : forall rf rp fo po k sx m h, Forall byte sx -> (forall t s2, sx <> 3 :: t :: s2) ->
+  exists f0, forall f, (f0 <= f)%nat -> exists st fin,
+    callC prog_env f prog_sbdf_va_read [VPtr rf fo; VPtr rp po] m k sx h = OReturn (VInt st) fin /\
+    (st = SBDF_OK ->
+       Imp.lookup "*handle" (vars fin) = Some (VCell (List.length h) 0) /\
+       exists h' nb, Imp.lookup cells_var (vars fin) = Some (VHeap h') /\ List.length h' = (List.length h + S nb)%nat /\
+         forall k' s', exists f1, forall g, (f1 <= g)%nat -> exists fin2,
+           callC prog_env g prog_sbdf_va_destroy [VCell (List.length h) 0] (inb fin) k' s' h' = ONormal fin2 /\
+           inb fin2 = inb fin /\ Imp.lookup cells_var (vars fin2) = Some (VHeap (h ++ nones (S nb)))).
+Proof. exact va_read_then_destroy. Qed.
+Print Assumptions C12_source_va_read_then_destroy.
